@@ -36,6 +36,8 @@ package server
 // only for a peer that speaks 2-octet AS numbers; from a 4-octet speaker the two attributes are discarded
 // (RFC 6793 6), not merged into what it sent
 //@   at-call table.UpdatePathAttrs4ByteAs( requires h.fsm.twoByteAsTrans
+//@   at-call table.DiscardAs4Attrs( requires !h.fsm.twoByteAsTrans
+//@   at-call table.DiscardAs4Attrs( requires handling == bgp.ERROR_HANDLING_NONE || handling == bgp.ERROR_HANDLING_ATTRIBUTE_DISCARD ==> called(ValidateUpdateMsg)
 
 // =============================================================================================
 // C08 — session parameters are negotiated as the intersection of both OPEN messages
